@@ -153,7 +153,7 @@ def main():
         "hooks": {
             "guard": "verif",
             "enable": "go build -tags verif (the harness module replaces github.com/arr-ai/arrai => /repo, so every check rebuilds /repo's working tree with the tag on)",
-            "baseline_off_cmd": ". /verif/env.sh && cd /repo && go test -vet=off -count=1 -timeout 25m ./...",
+            "baseline_off_cmd": ". /verif/env.sh && cd /repo && go test -json -vet=off -count=1 -timeout 25m ./...",
             "source_commits": hooks_commits,
             "add_only": True,
         },
